@@ -133,6 +133,12 @@ def split_by_object(events, n_objs):
 def judge_call(ctx, hv, kw, label):
     import hvsrpy
     hvsrs0 = hv.hvsrs if isinstance(hv, hvsrpy.HvsrAzimuthal) else [hv]
+    # a fifth of the calls are made on an object that is a copy.deepcopy / pickle round trip of the one built (a copy kept
+    # aside to try several n, a result that came back from a worker process); decided from the curves, so replays agree
+    pick = np.random.default_rng([int(hvsrs0[0].n_curves), int(abs(float(hvsrs0[0].amplitude[0, 0])) * 1e6) % (2 ** 31), len(label)])
+    if pick.random() < 0.2:
+        ctx.count("calls_on_objects_recreated_by_" + gen.recreate_in_place(pick, hv))
+        hvsrs0 = hv.hvsrs if isinstance(hv, hvsrpy.HvsrAzimuthal) else [hv]
     ret, err, ev, hvsrs = call_fdwra(ctx, hv, kw)
     info = dict(label=label, n=kw["n"], max_iterations=kw["max_iterations"], distribution_fn=kw["distribution_fn"],
                 distribution_mc=kw["distribution_mc"], search_range=list(kw["search_range_in_hz"]),
